@@ -212,6 +212,9 @@ class BytesAlg:
         if isinstance(op, ast.Add):
             la, ra = self.atoms_of(l), self.atoms_of(r)
             if la is not None and ra is not None:
+                if self.kind(l) == "bytearray":
+                    # bytearray + x is a NEW bytearray: a mutable object of its own (`+=` on it later changes it in place)
+                    return self._new(it, "bytearray", atoms=self.normalise(list(la) + list(ra)))
                 return self.bt(it, la + ra)
             if la is not None or ra is not None:
                 raise _exc("TypeError", "can't concat %s to bytes" % (r[0] if la is not None else l[0]))
